@@ -15,12 +15,6 @@ import (
 	"verif/harness/vlib"
 )
 
-const (
-	// an on-demand workload subscription whose request names no new address (e.g. unsubscribe only) is
-	// answered with an empty non-delta response, so pushDeltaXds removes every name still watched
-	findOndemand = "C03-ondemand-empty-request-removes-all-watched"
-)
-
 // ---------------------------------------------------------------- world
 
 type world struct {
@@ -318,7 +312,6 @@ type hist struct {
 	cl0    map[int]rmap
 	sub    map[int]map[int]bool // the client's explicit subscription per type (for generating requests)
 	first  map[int]bool
-	finds  bool
 	ts     []int
 	lawful bool
 }
@@ -533,10 +526,6 @@ func (h *hist) subChange(t int, ondemand bool) {
 	}
 	h.installStubs(nil, nil)
 	s := h.e.request(q)
-	// known finding: an on-demand request that resolves to no address answers "remove everything watched"
-	if isWds(t) && ondemand && len(s.Calls) > 0 && !s.Calls[0].Out.ResNil && !s.Calls[0].Out.Used && len(s.Resps) > 0 && len(s.Resps[0].Removed) > 0 {
-		h.finds = true
-	}
 	h.add(s)
 }
 
@@ -736,10 +725,6 @@ func TestGen(t *testing.T) {
 		}
 		for _, b := range h.e.bad {
 			c.Violate(vlib.Violation{ID: id, Kind: "projection", Detail: b})
-		}
-		if h.finds {
-			c.FindingOf[id] = findOndemand
-			tags = append(tags, "finding-ondemand-empty-request")
 		}
 		sort.Strings(tags)
 		tags = uniq(tags)
